@@ -112,6 +112,10 @@ def _merge_units(h, hits, lengths):
             if a == h and b == h:
                 continue
             units.append(Hit(h.p, a.s, b.e, max(a.sc, b.sc, h.sc), min(a.ev, b.ev, h.ev)))
+    # a fragment that contains h absorbs it without being extended, however long it is
+    for a in same:
+        if a != h and contains(a, h):
+            units.append(Hit(h.p, a.s, a.e, max(a.sc, h.sc), min(a.ev, h.ev)))
     return units
 
 
@@ -128,6 +132,9 @@ def all_units(hits, lengths):
             if len(members) < 2:
                 continue
             units.append(Hit(a.p, a.s, b.e, max(m.sc for m in members), min(m.ev for m in members)))
+        nested = [m for m in hits if m.p == a.p and contains(a, m)]
+        if len(nested) >= 2:
+            units.append(Hit(a.p, a.s, a.e, max(m.sc for m in nested), min(m.ev for m in nested)))
     return units
 
 
